@@ -78,6 +78,11 @@ def normStyleDefault : PyVal := .str "lammps"
 def normFlagDefault : PyVal := .bool false
 /-- the only accepted `style` -/
 def normStyleAccepted : PyVal := .str "lammps"
+/-- positional order of the parameters: `wrap(flag)`, `normalize(style, flag)` (the FIRST positional is the style),
+    `lammps.normalize(system, flag)`; the driver ops `apiwrap FLAG`, `apinorm STYLE FLAG`, `apilmp FLAG` follow it. -/
+def wrapParams : List String := ["self", "return_imageflags"]
+def normParams : List String := ["self", "style", "return_transform"]
+def lmpParams : List String := ["system", "return_transform"]
 /-- `Box.set`: the keyword tested in each `elif`, in order (`vects` → setter, `avect` → `set_vectors`, `lx` → `set_lengths`,
     `xlo` → `set_hi_los`, `a` → `set_abc`, `origin` alone → origin setter; anything else `TypeError`). -/
 def boxSetDispatch : List String := ["vects", "avect", "lx", "xlo", "a", "origin"]
